@@ -12,6 +12,8 @@ import fold
 from fold import Aff
 
 WIN_M, WIN_Y = 40, 6
+FAR_M = (-4800, -1201, -487, -121, 119, 480, 1200, 4799, 24000)
+FAR_Y = (-400, -101, -33, 29, 100, 400, 1000, 2000)
 
 
 def _leap(y):
@@ -80,7 +82,12 @@ def run(R, tu, rule):
                 for m in range(1, 13):
                     for extra in rest:
                         src = dict(extra, y=y, m=m)
-                        for (a, b), res in _split_run(tu, tabs, fname, src, -WIN_M, WIN_M):
+                        runs = _split_run(tu, tabs, fname, src, -WIN_M, WIN_M)
+                        if m in (1, 6, 12):
+                            # far counts: decades and centuries either way
+                            for far in FAR_M:
+                                runs += _split_run(tu, tabs, fname, src, far, far)
+                        for (a, b), res in runs:
                             for t in range(a, b + 1):
                                 n += 1
                                 tot = y * 12 + (m - 1) + t
@@ -99,10 +106,16 @@ def run(R, tu, rule):
                     src = dict(extra, y=y)
                     if fname == "__ywd_add_y":
                         src["hang"] = 0
-                    for (a, b), res in _split_run(tu, tabs, fname, src, -WIN_Y, WIN_Y):
+                    runs = _split_run(tu, tabs, fname, src, -WIN_Y, WIN_Y)
+                    for far in FAR_Y:
+                        runs += _split_run(tu, tabs, fname, src, far, far)
+                    for (a, b), res in runs:
                         for t in range(a, b + 1):
                             n += 1
                             exp = dict(extra, y=y + t)
+                            if fname == "__ywd_add_y":
+                                # the helper slot follows the year: how far its 1 January is off a Monday
+                                exp["hang"] = {1: 0, 2: -1, 3: -2, 4: -3, 5: 3, 6: 2, 7: 1}[datetime.date(y + t, 1, 1).isoweekday()]
                             got = {k: _val(res.get(k), t) for k in exp}
                             if got != exp:
                                 note(fname, ("%04d %s %+d years" % (y, extra, t), got, exp))
